@@ -1,4 +1,7 @@
-use dashu_base::{EstimatedLog2, Gcd};
+use dashu_base::{
+    utils::{next_down, next_up},
+    EstimatedLog2, Gcd,
+};
 use dashu_int::{IBig, UBig};
 
 pub struct Repr {
@@ -131,6 +134,13 @@ impl EstimatedLog2 for Repr {
     fn log2_bounds(&self) -> (f32, f32) {
         let (n_lb, n_ub) = self.numerator.log2_bounds();
         let (d_lb, d_ub) = self.denominator.log2_bounds();
-        (n_lb - d_ub, n_ub - d_lb)
+        let (lb, ub) = (n_lb - d_ub, n_ub - d_lb);
+        if lb.is_infinite() || ub.is_infinite() {
+            // zero numerator
+            (lb, ub)
+        } else {
+            // the subtractions are rounded to nearest, widen the results so that they remain bounds
+            (next_down(lb), next_up(ub))
+        }
     }
 }
